@@ -364,7 +364,13 @@ fn stmt_contexts() -> Vec<StmtCtx> {
 
 /// Enumerate S(E1(E2(hole))) for all statement contexts, all pairs of expression contexts and
 /// all holes × all events.
+const CORE_CONTEXTS: usize = 18;
+
 fn context_cases(prop: &str, holes: &[(&'static str, P)], in_closure_holes: &[(&'static str, P)], depth2: bool, skipped: &mut BTreeMap<String, u64>) -> Vec<J> {
+    context_cases_tier(prop, holes, in_closure_holes, depth2, true, skipped)
+}
+
+fn context_cases_tier(prop: &str, holes: &[(&'static str, P)], in_closure_holes: &[(&'static str, P)], depth2: bool, full_pairs: bool, skipped: &mut BTreeMap<String, u64>) -> Vec<J> {
     let ectx = expr_contexts();
     let sctx = stmt_contexts();
     let evs = events();
@@ -377,6 +383,11 @@ fn context_cases(prop: &str, holes: &[(&'static str, P)], in_closure_holes: &[(&
             for (i1, (_n1, e1)) in ectx.iter().enumerate() {
                 for (i2, (_n2, e2)) in ectx.iter().enumerate() {
                     if !depth2 && i2 != 0 {
+                        continue;
+                    }
+                    // the six contexts added later (optional stdlib parameters, closure collections) are
+                    // composed with the others only in the thorough tier; the quick tier has them at depth 1
+                    if !full_pairs && (i1 >= CORE_CONTEXTS || i2 >= CORE_CONTEXTS) && i1 != 0 && i2 != 0 {
                         continue;
                     }
                     if i1 == 0 && i2 != 0 {
@@ -423,7 +434,7 @@ pub fn run_c06(tier: Tier) -> Report {
         ("if v == 1 { return 9 }; 1", b(vec![m::if_(m::bin("==", m::var("v"), m::lit_i(1)), vec![m::ret(m::lit_i(9))]), m::lit_i(1)])),
         ("if k == \"a\" { return 9 }; 1", b(vec![m::if_(m::bin("==", m::var("k"), m::lit_s("a")), vec![m::ret(m::lit_i(9))]), m::lit_i(1)])),
     ];
-    let mut cases = context_cases("C06", &holes, &closure_holes, true, &mut skipped);
+    let mut cases = context_cases_tier("C06", &holes, &closure_holes, true, true, &mut skipped);
     // closure-specific: the returned value IS the iteration's value
     let evs = events();
     let colls = [P::Obj(vec![("a".into(), m::lit_i(1)), ("b".into(), m::lit_i(2))]), P::Arr(vec![m::lit_i(1), m::lit_i(2)])];
@@ -478,7 +489,7 @@ pub fn run_c07(tier: Tier) -> Report {
     ];
     let closure_holes: Vec<(&'static str, P)> =
         vec![("if v == 2 { abort \"it\" }; 1", b(vec![m::if_(m::bin("==", m::var("v"), m::lit_i(2)), vec![P::Abort(Some(Box::new(m::lit_s("it"))))]), m::lit_i(1)]))];
-    let cases = context_cases("C07", &holes, &closure_holes, true, &mut skipped);
+    let cases = context_cases_tier("C07", &holes, &closure_holes, true, true, &mut skipped);
     let rw: Vec<J> = vec![
         fixed("C07", ".r = replace_with(\"abcb\", r'b') -> |m| { .n = 1; abort; \"x\" }\n.m2 = 1", json!({}), json!({"class": "abort", "abort_message": null, "event": {"n": 1}})),
         fixed("C07", ".r = { to_int(.t); replace_with(string!(.s), r'b') -> |m| { abort \"stop\" } } ?? \"caught\"\n.m2 = 1", json!({"s": "abcb"}), json!({"class": "abort", "abort_message": "stop", "event": {"s": "abcb"}})),
@@ -543,6 +554,10 @@ pub fn run_c08(tier: Tier) -> Report {
         progs.push(vec![P::SetErr(evt("ok"), m::var_t("err"), Box::new(l.clone())), m::marker(2)]);
         progs.push(vec![P::SetErr(Tgt::Noop, m::var_t("err"), Box::new(l.clone())), m::marker(2)]);
         progs.push(vec![P::SetErr(m::var_t("x"), Tgt::Noop, Box::new(l.clone())), m::marker(2)]);
+        // the VALUE of the assignment expression when one of the targets is `_`
+        progs.push(vec![m::set(m::var_t("y"), P::SetErr(m::var_t("x"), Tgt::Noop, Box::new(l.clone()))), m::set(evt("y_after"), m::var("y")), m::marker(2)]);
+        progs.push(vec![m::set(m::var_t("y"), P::SetErr(Tgt::Noop, m::var_t("err"), Box::new(l.clone()))), m::set(evt("y_after"), m::var("y")), m::marker(2)]);
+        progs.push(vec![m::set(evt("y_after"), P::SetErr(evt("ok"), Tgt::Noop, Box::new(l.clone()))), m::marker(2)]);
         progs.push(vec![
             m::set(m::var_t("x"), P::Obj(vec![("q".into(), m::lit_i(1))])),
             P::SetErr(Tgt::Var("x".into(), vec![f_("f")]), m::var_t("err"), Box::new(l.clone())),
@@ -620,9 +635,9 @@ pub fn run_c08(tier: Tier) -> Report {
         "to_int(v) ?? {m8; 0}",
         m::bin("??", m::call("to_int", vec![m::var("v")]), side(8, m::lit_i(0))),
     )];
-    cases.extend(context_cases("C08", &c_holes, &closure_c_holes, tier == Tier::Thorough, &mut skipped));
+    cases.extend(context_cases("C08", &c_holes, &closure_c_holes, true, &mut skipped));
     typed_defaults(&mut rep, tier);
-    finish(&mut rep, &cases, &skipped, "(plus 5+1 coalescing / infallible-assignment holes under 19 statement contexts × 24 expression contexts, ×24 again in the thorough tier) all programs `t = L ?? R`, `t = (L ?? R') ?? 99`, `ok, err = L` over 13 fallible left sides (int, string, bool, array, object, float results; with and without side effects), 6+2 right sides and 10 target shapes (variable, event path, variable path, `_`, pre-bound), each on every event of the 10-event alphabet; non-trivial = accepted and modelled; distinct = distinct (program, event)");
+    finish(&mut rep, &cases, &skipped, "(plus 5+1 coalescing / infallible-assignment holes under 19 statement contexts × 24 expression contexts, ×24 again) all programs `t = L ?? R`, `t = (L ?? R') ?? 99`, `ok, err = L` over 13 fallible left sides (int, string, bool, array, object, float results; with and without side effects), 6+2 right sides and 10 target shapes (variable, event path, variable path, `_`, pre-bound), each on every event of the 10-event alphabet; non-trivial = accepted and modelled; distinct = distinct (program, event)");
     rep
 }
 
@@ -663,13 +678,16 @@ fn typed_defaults(rep: &mut Report, tier: Tier) {
     ];
     let mut cases: Vec<J> = Vec::new();
     for r in &rhs {
-        for form in 0..4 {
+        for form in 0..6 {
             let prog = match form {
                 0 => format!("ok8, err8 = {r}\n.after = 1"),
                 1 => format!(".ok8, .err8 = {r}\n.after = 1"),
                 2 => format!("ok8 = \"old\"\nerr8 = 7\nok8, err8 = {r}\nok8, err8 = {r}\n.after = 1"),
                 // the value of the assignment expression itself
-                _ => format!("r8 = (ok8, err8 = {r})\n.after = 1"),
+                3 => format!("r8 = (ok8, err8 = {r})\n.after = 1"),
+                // … also when one target is `_` (judged against the named form run on the same event)
+                4 => format!("r8 = (ok8, _ = {r})\n.after = 1"),
+                _ => format!("r8 = (_, err8 = {r})\n.after = 1"),
             };
             for e in &events {
                 cases.push(json!({"property": "C08", "program": prog, "event": e, "typed_default": true}));
@@ -699,6 +717,52 @@ pub fn typed_default_case(w: &J) -> CaseResult {
             "`ok, err = e` never fails: the error is captured in err",
             o.show(),
         ));
+    }
+    // forms with a `_` target: everything observable must equal the fully named form on the same event
+    if src.contains("(ok8, _ = ") || src.contains("(_, err8 = ") {
+        let named = src.replace("(ok8, _ = ", "(ok8, err8 = ").replace("(_, err8 = ", "(ok8, err8 = ");
+        let Some(np) = law::prog(&named) else { return CaseResult::trivial("typed-default:named-form-rejected") };
+        let mut t2 = vrlx::target(vv::dec(&w["event"]), vrlx::empty_object());
+        let mut rs2 = RuntimeState::default();
+        let _ = guarded(|| vrlx::run_program(&np, &mut t2, &mut rs2, &tz));
+        let strip = |v: Option<&Value>| -> String {
+            // error messages carry source offsets, which differ between the two spellings
+            let t = v.map_or("unset".to_string(), vv::show);
+            let mut out = String::new();
+            let mut in_span = false;
+            for ch in t.chars() {
+                match ch {
+                    '(' => {
+                        in_span = true;
+                        out.push(ch);
+                    }
+                    ')' => {
+                        in_span = false;
+                        out.push(ch);
+                    }
+                    c if in_span && (c.is_ascii_digit() || c == ':') => {}
+                    c => out.push(c),
+                }
+            }
+            out
+        };
+        let mut res = CaseResult::ok("typed-default:underscore-form");
+        let (a, b) = (rs.variable(&Ident::new("r8")), rs2.variable(&Ident::new("r8")));
+        if strip(a) != strip(b) {
+            res.violations.push(Violation::new("C08.expression-value", w.clone(), format!("the assignment expression evaluates as with both targets named: {}", strip(b)), strip(a)));
+        }
+        if src.contains("(ok8, _ = ") {
+            let (a, b) = (rs.variable(&Ident::new("ok8")), rs2.variable(&Ident::new("ok8")));
+            if a != b {
+                res.violations.push(Violation::new("C08.ok-is-default-on-failure", w.clone(), format!("ok8 as with both targets named: {}", b.map_or("unset".to_string(), vv::show)), a.map_or("unset".to_string(), vv::show)));
+            }
+        } else {
+            let (a, b) = (rs.variable(&Ident::new("err8")), rs2.variable(&Ident::new("err8")));
+            if strip(a) != strip(b) {
+                res.violations.push(Violation::new("C08.err-is-message", w.clone(), format!("err8 as with both targets named: {}", strip(b)), strip(a)));
+            }
+        }
+        return res;
     }
     let info = program.final_type_info();
     let event_form = src.starts_with(".ok8");
@@ -934,8 +998,8 @@ pub fn run_c09(tier: Tier) -> Report {
         "if (v == 1 || {m8; .d == true}) {1} else {2}",
         m::if_else(m::bin("||", m::bin("==", m::var("v"), m::lit_i(1)), side(8, m::bin("==", evp("d"), m::lit_b(true)))), vec![m::lit_i(1)], vec![m::lit_i(2)]),
     )];
-    cases.extend(context_cases("C09", &s_holes, &closure_s_holes, tier == Tier::Thorough, &mut skipped));
-    finish(&mut rep, &cases, &skipped, "(plus 4+1 short-circuit / conditional holes under 19 statement contexts × 24 expression contexts, ×24 again in the thorough tier) all programs `x = A op B`, `(A op B) op2 C`, `A op (B op2 C)` for op,op2 ∈ {||,&&} over 13 left operands (null, false, true, 0, \"\", [], {}, event fields, comparisons, side-effecting block) × 7 side-effecting right operands, and all if / else-if (one, two and three arms) / else / nested-if programs over 9 predicates (incl. predicates with their own short-circuit side effects) with marker/assignment/del branches, each on every event of the 10-event alphabet; non-trivial = accepted and modelled; distinct = distinct (program, event)");
+    cases.extend(context_cases("C09", &s_holes, &closure_s_holes, true, &mut skipped));
+    finish(&mut rep, &cases, &skipped, "(plus 4+1 short-circuit / conditional holes under 19 statement contexts × 24 expression contexts, ×24 again) all programs `x = A op B`, `(A op B) op2 C`, `A op (B op2 C)` for op,op2 ∈ {||,&&} over 13 left operands (null, false, true, 0, \"\", [], {}, event fields, comparisons, side-effecting block) × 7 side-effecting right operands, and all if / else-if (one, two and three arms) / else / nested-if programs over 9 predicates (incl. predicates with their own short-circuit side effects) with marker/assignment/del branches, each on every event of the 10-event alphabet; non-trivial = accepted and modelled; distinct = distinct (program, event)");
     rep
 }
 
@@ -1081,9 +1145,9 @@ pub fn run_c13(tier: Tier) -> Report {
             m::lit_i(1),
         ]),
     )];
-    cases.extend(context_cases("C13", &n_holes, &closure_n_holes, tier == Tier::Thorough, &mut skipped));
+    cases.extend(context_cases("C13", &n_holes, &closure_n_holes, true, &mut skipped));
     replace_with_scoping(&mut rep);
-    finish(&mut rep, &cases, &skipped, "(plus replace_with scoping programs and the compile-time visibility of every closure parameter after the call; plus 3+1 closure-call holes under 19 statement contexts × 24 expression contexts, ×24 again in the thorough tier) all programs calling for_each / filter / map_values / map_keys over {object, array} × {0,1,2 elements, event field} × 7 closure bodies (succeeds, fails on every / on the 2nd element, returns, aborts, assigns its parameter, nested closure reusing the names) × outer pre-binding of the parameter names {unset, bound} × handling {bare, `?? \"failed\"`, `ok, err =`}, each on every event of the 10-event alphabet; the oracle compares RuntimeState::variable(k/v) after the run with the reference interpreter (restored or unset); non-trivial = accepted and modelled; distinct = distinct (program, event)");
+    finish(&mut rep, &cases, &skipped, "(plus replace_with scoping programs and the compile-time visibility of every closure parameter after the call; plus 3+1 closure-call holes under 19 statement contexts × 24 expression contexts, ×24 again) all programs calling for_each / filter / map_values / map_keys over {object, array} × {0,1,2 elements, event field} × 7 closure bodies (succeeds, fails on every / on the 2nd element, returns, aborts, assigns its parameter, nested closure reusing the names) × outer pre-binding of the parameter names {unset, bound} × handling {bare, `?? \"failed\"`, `ok, err =`}, each on every event of the 10-event alphabet; the oracle compares RuntimeState::variable(k/v) after the run with the reference interpreter (restored or unset); non-trivial = accepted and modelled; distinct = distinct (program, event)");
     rep
 }
 
